@@ -249,7 +249,7 @@ fn foreign_large(sizes: &[u64]) -> (Shared<SparseFile>, Vec<(String, u64, u32, u
 
 /// entries given as (uncompressed size, compressed size); method 0 when equal, 8 otherwise (the
 /// payload is a zero run: not a valid deflate stream, it is never decoded)
-fn foreign_large2(sizes: &[(u64, u64)]) -> (Shared<SparseFile>, Vec<(String, u64, u64, u32, u64)>) {
+pub fn foreign_large2(sizes: &[(u64, u64)]) -> (Shared<SparseFile>, Vec<(String, u64, u64, u32, u64)>) {
     let f = Shared::new(SparseFile::new());
     let mut expect = Vec::new();
     let mut central = Vec::new();
